@@ -19,7 +19,7 @@ from vt.monitors import contracts, reach
 ID = 'C01'
 TIERS = {
     'quick': dict(shards=16, cases=800, watchdog_s=900),
-    'thorough': dict(shards=16, cases=30000, big_columns=16, watchdog_s=7000),
+    'thorough': dict(shards=16, cases=30000, big_columns=16, long_null_runs=40, watchdog_s=7000),
 }
 RULE = ('case = frame spec (1-4 columns drawn from 25 recognised column kinds, null pattern none/one/two/many/all, '
         '0-60 rows, hostile field names) x rex off/on x transport dict/file x verify/detect x repair on/off; the '
@@ -29,7 +29,7 @@ ASSUMPTIONS = [
     "recognised types = the list in the property's quantifier; pandas-3 `str` and `string` extension columns are generated only as an extra, separately reported class",
     'a field for which nothing is discovered is vacuous (counted, not a pass)',
 ]
-REQUIRED_MONITORS = ['frames:big_string_column', 'closure:verify', 'closure:detect', 'verdicts:observed', 'reach:discover_field_constraints',
+REQUIRED_MONITORS = ['frames:big_string_column', 'frames:long_null_run', 'closure:verify', 'closure:detect', 'verdicts:observed', 'reach:discover_field_constraints',
                      'reach:find_rexes', 'reach:repair_field_types']
 REQUIRED_CLASSES = ['kind=%s' % k for k in F.RECOGNISED] + ['rex=1', 'rex=0', 'transport=file', 'transport=dict',
                                                              'mode=verify', 'mode=detect', 'repair=1', 'repair=0',
@@ -206,8 +206,31 @@ def big_column_case(rng):
             'detect_opts': {'per_constraint': True, 'write_all': False, 'output_fields': None, 'outfile': None}, 'prng': rng.randrange(2 ** 31)}
 
 
+def long_null_run_case(rng):
+    """More than a thousand rows in which columns of several kinds have their few values behind (or before, or around) a
+    run of 1000+ nulls: whatever looks only at the first rows of a column sees nothing but nulls."""
+    lead = rng.choice([1000, 1001, 1200, 2500, 5000])
+    few = rng.randint(1, 6)
+    where = rng.choice(['values-last', 'values-last', 'values-first', 'values-middle'])
+    cols = []
+    for kind in rng.sample(['objbool', 'dateobj', 'str_obj', 'Int64', 'float64', 'dt_ns', 'boolean', 'cat'], rng.randint(2, 5)):
+        c = F.gen_column(rng, kind, few, name='c_' + kind, nulls='none')
+        vals = list(c['values'])
+        nul = [None] * lead
+        c['values'] = nul + vals if where == 'values-last' else vals + nul if where == 'values-first' else nul[:lead // 2] + vals + nul[lead // 2:]
+        c['nulls'] = 'many'
+        cols.append(c)
+    spec = {'nrows': lead + few, 'cols': cols}
+    return {'spec': spec, 'rex': rng.random() < 0.5, 'transport': rng.choice(['dict', 'file']), 'mode': rng.choice(['verify', 'detect']),
+            'repair': rng.random() < 0.5,
+            'detect_opts': {'per_constraint': True, 'write_all': False, 'output_fields': None, 'outfile': None}}
+
+
 def run_shard(ctx):
     n = ctx.params['cases']
+    for _ in range(ctx.params.get('long_null_runs', 2)):
+        run_case(ctx, long_null_run_case(ctx.rng))
+        ctx.rec.event('frames:long_null_run')
     if ctx.shard < ctx.params.get('big_columns', 8):
         import random
         c = big_column_case(ctx.rng)
